@@ -76,6 +76,11 @@ def parse_summary(text: str):
             nums = _PCT.findall(ln)
             if len(nums) == 3:
                 figs = [int(x.replace(",", "").replace(".", "")) for x in nums]
+            else:
+                # three figures of which some are not numbers at all ("False%", "nan%"): not integers between 0 and 100
+                cells = re.findall(r"([^\s|%]+)\s*%", ln)
+                if len(cells) == 3:
+                    figs = [int(x) if re.fullmatch(r"-?\d+", x) else -1 for x in cells]
     low = text.lower()
     if "no refactoring necessary" in low:
         nec = False
@@ -93,7 +98,7 @@ def observe(arg):
 
     p, render = arg
     rep, real = make_report(p, render)
-    fn = [int(x) for x in rep.quality_profile_percentage()]
+    fn = [x if type(x) is int else (int(x) if type(x) is float and x == int(x) else -1) for x in rep.quality_profile_percentage()]  # True / False are not figures
     figs, nec = [], []
     if render:
         for fmt in (format_text, format_markdown):
